@@ -152,6 +152,29 @@ def rule_listeners(ctx: Ctx) -> None:
                           f"{owner.name} registers itself as endpoint listener on behalf of {oc.name} (via self.{attr}) but {oc.name}.unload never removes it: "
                           "datagrams arriving after unload still reach the overlay's handlers")
     ctx.floor("listeners", n, 3)
+    # wrapper endpoints: whoever forwards add_listener / add_prefix_listener must forward remove_listener to the same receivers
+    ep = repo.cls("Endpoint", "ipv8/messaging/interfaces/endpoint.py")
+    for c in ep.all_subclasses():
+        adds = [m for m in ("add_listener", "add_prefix_listener") if m in c.methods]
+        if not adds:
+            continue
+        def receivers(meth: str, name: str):
+            f = c.methods.get(meth)
+            if f is None:
+                return None
+            out = set()
+            for k in calls(f):
+                if call_name(k) == name and chain(k.func) != f"self.{name}":
+                    out.add(norm(k.func.value))
+            return out
+        want = set()
+        for a in adds:
+            want |= receivers(a, a) or set()
+        got = receivers("remove_listener", "remove_listener")
+        ctx.check(got is not None and want <= got, "listeners", c.where + ".remove_listener", f"{c.name} forwards remove_listener",
+                  f"{c.name}: add_listener/add_prefix_listener are forwarded to {sorted(want)} and so is remove_listener",
+                  f"{c.name} forwards listener registration to {sorted(want)} but " + ("inherits remove_listener (which only edits its own empty lists)" if got is None else f"forwards removal only to {sorted(got)}") +
+                  ": an overlay behind this endpoint stays registered after unload and keeps receiving datagrams")
 
 
 def _releases_resource(ctx: Ctx, fi: FuncInfo) -> list[str]:
@@ -314,6 +337,20 @@ def rule_taskmanager(ctx: Ctx) -> None:
         if n.kind == "cond" and isinstance(n.ast, ast.Call) and chain(n.ast.func) == "self.is_pending_task_active":
             r = cfg.reach([v for v, lab in n.succ if lab is True], follow_exc=False)
             ctx.check(cfg.exit not in r, "taskmanager-gates", rt, n.ast, "registering an active name raises", "registering under an active name is not refused")
+    # the done-callback may only unregister its own future (a newer task may have taken the name)
+    dcb = [f for f in rt.module.all_functions if f.qualname == "TaskManager.register_task.done_cb"]
+    ctx.anchor(dcb, "done_cb in register_task")
+    cfgd = ctx.cfg(dcb[0])
+    fut = dcb[0].params()[0]
+    for c in calls(dcb[0], "self._pending_tasks.pop"):
+        fs = facts_at(cfgd, c)
+        ok = any(f.op == "is" and f.pos and ((isinstance(f.left, ast.Call) and chain(f.left.func) in ("self._pending_tasks.get",) and norm(f.right) == fut) or
+                                               (isinstance(f.right, ast.Call) and chain(f.right.func) in ("self._pending_tasks.get",) and norm(f.left) == fut) or
+                                               ({norm(f.left), norm(f.right)} == {"self._pending_tasks[name]", fut})) for f in fs)
+        ctx.check(ok, "taskmanager-gates", dcb[0], c, "a finished task unregisters its name only if the name still maps to itself",
+                  "the done-callback pops the task name unconditionally: when a name is cancelled and re-registered before the old task finishes, the old task's "
+                  "callback unregisters the NEW task, which then survives shutdown_task_manager() (e.g. a request-cache timeout firing after unload) and can be duplicated",
+                  [str(f) for f in fs])
     # after shutdown a passed-in future is cancelled
     cancels = [c for c in calls(rt) if call_name(c) == "cancel"]
     ok = any(any(f.op == "truthy" and f.pos and chain(f.left) == "self._shutdown" for f in facts_at(cfg, c)) for c in cancels)
@@ -384,6 +421,12 @@ def run(ctx: Ctx) -> None:
 
 TC = "ipv8/messaging/anonymization/community.py"
 WITNESSES = [
+    {"name": "pre-fix: done_cb pops the name unconditionally", "file": "ipv8/taskmanager.py", "rule": "taskmanager-gates",
+     "old": "                if self._pending_tasks.get(name, None) is future:\n                    self._pending_tasks.pop(name, None)\n",
+     "new": "                self._pending_tasks.pop(name, None)\n"},
+    {"name": "pre-fix: TunnelEndpoint inherits remove_listener", "file": "ipv8/messaging/anonymization/endpoint.py", "rule": "listeners",
+     "old": "    def remove_listener(self, listener: EndpointListener) -> None:\n        \"\"\"\n        Forward directly to the underlying endpoint.\n        \"\"\"\n        self.endpoint.remove_listener(listener)\n\n",
+     "new": ""},
     {"name": "pre-fix: removals not awaited", "file": TC, "rule": "awaited-release",
      "old": "        await gather(*removals, return_exceptions=True)\n", "new": ""},
     {"name": "gather can abort unload", "file": TC, "rule": "awaited-release",
